@@ -103,6 +103,15 @@ func genCRSTree(r *Rng) *crsTree {
 		}
 	}
 	if r.Chance(1, 3) {
+		// an include file whose name merely ENDS in the id of a rule: it is no assembly file of that rule
+		for _, rule := range t.rules.Rules {
+			if len(rule.ID) == 6 && len(rule.Chain) > 0 && (rule.Chain[0].Operator == "@rx" || rule.Chain[0].Operator == "!@rx") {
+				t.files["root/regex-assembly/include/keywords-"+rule.ID+".ra"] = "keywordone\nkeywordtwo\n"
+				break
+			}
+		}
+	}
+	if r.Chance(1, 3) {
 		// decoys named like an assembly file but WITHOUT the extension: --all must not take them
 		for _, rule := range t.rules.Rules {
 			if len(rule.ID) == 6 && len(rule.Chain) > 0 && (rule.Chain[0].Operator == "@rx" || rule.Chain[0].Operator == "!@rx") {
@@ -363,6 +372,16 @@ func suiteTreeFrame(env *Env, res *Result) {
 				}
 				if ok, line := markersShow(c, x.cmd.a1, x.cmd.a2); !ok {
 					res.addFailure(Failure{Kind: "C14", Shape: "c14_marker_not_updated_after_command", Input: input, Detail: fmt.Sprintf("%s: %q", p, line)})
+				}
+			}
+		}
+		// C08 / C18: an include file is not the assembly file of the rule whose id its name ends in
+		if strings.Contains(x.cmd.name, "--all") && strings.HasPrefix(x.cmd.name, "update") {
+			for p, c := range x.after {
+				if strings.HasPrefix(p, "root/rules/") && strings.Contains(c, "keywordone") {
+					for _, kind := range []string{"C08", "C18"} {
+						res.addFailure(Failure{Kind: kind, Shape: strings.ToLower(kind) + "_all_takes_include_file_for_a_rule", Input: input, Detail: p + " now holds the regex of regex-assembly/include/keywords-NNNNNN.ra"})
+					}
 				}
 			}
 		}
